@@ -3,3 +3,4 @@ import SmppVerif.Props.C10
 import SmppVerif.Props.C11
 import SmppVerif.Props.C17
 import SmppVerif.Props.C20
+import SmppVerif.Props.C08
